@@ -104,6 +104,7 @@ var paramMaps = []map[string]string{
 type progChecker struct {
 	res     *Result
 	layouts int
+	prune   int
 	seen    map[string]bool
 	// trace of successful parses for TLC (TraceParse)
 	trace     *json.Encoder
@@ -435,7 +436,7 @@ func (pc *progChecker) checkGenerated(c *progCase, rng interface {
 		res.Checks["walk"]++
 		for i, s := range stmts {
 			sub := subNodes(nodes, fmt.Sprintf("%d", i))
-			if msg := pc.walkChecks(text, s, sub, 24); msg != "" {
+			if msg := pc.walkChecks(text, s, sub, pc.prune); msg != "" {
 				res.violate(Violation{Property: "C11", Kind: "walk", InputB64: b64(text), Extra: extra, Reason: msg})
 				break
 			}
@@ -489,7 +490,7 @@ func cmdProgReplay(a args) {
 	res := newResult(a.str("property", "C07"))
 	out := a.str("out", "result.json")
 	startWatchdog(res, out)
-	pc := &progChecker{res: res, layouts: a.int("layouts", 4), seen: map[string]bool{}, traceSeen: map[string]bool{},
+	pc := &progChecker{res: res, layouts: a.int("layouts", 4), prune: a.int("prune", 3), seen: map[string]bool{}, traceSeen: map[string]bool{},
 		traceCap: a.int("trace-cap", 30000)}
 	if tp := a.str("trace", ""); tp != "" {
 		tf, err := os.Create(tp)
